@@ -739,13 +739,11 @@ func checkPackageIdentity(c *Ctx, rule string, pk *packages.Package) {
 	}
 }
 
-
 var embeddedOnlyRx = regexp.MustCompile(`if !\w+\.(Embedded|Anonymous)\(\) \{`)
 
 // embeddedOnlyLoop: the loop body skips every field that is not embedded (whatever the loop
 // variable is called).
 func embeddedOnlyLoop(bodyText string) bool { return embeddedOnlyRx.MatchString(bodyText) }
-
 
 // checkTagPartsVerbatim: encoding/json takes the comma-separated parts of the json key as they are
 // written (`json:"n, string"` has the unknown option " string"): the scanner must not normalise
